@@ -461,6 +461,12 @@ class NumpyCodegenMapper(CachedMapper[str, Never, []]):
                     stop = (None
                             if are_shape_components_equal(dim, idx.stop)
                             else idx.stop)
+                elif are_shape_components_equal(-1, idx.start):
+                    # A normalized start of -1 means "before the first entry",
+                    # i.e. an empty slice; as a Python slice bound, -1 would
+                    # be the last entry.
+                    return ast.Slice(lower=_constant(0), upper=_constant(0),
+                                     step=_constant(idx.step))
                 else:
                     start = (None
                              if are_shape_components_equal(dim-1, idx.start)
